@@ -384,21 +384,30 @@ def amp_suffix_anchored(ctx, rule):
             alts = inner[0][1][1]
     elif len(items) == 1 and items[0][0] is sc.BRANCH:
         alts = items[0][1][1]
+    def ends_anchored(seq):
+        """every match of the sequence ends where the string ends (or where a lookahead that reaches the end of the string holds)"""
+        seq = list(seq)
+        if not seq:
+            return False
+        op, av = seq[-1]
+        if op is sc.AT and av in (sc.AT_END, sc.AT_END_STRING):
+            return True
+        if op is sc.ASSERT and av[0] > 0:
+            return ends_anchored(av[1])
+        if op is sc.SUBPATTERN:
+            return ends_anchored(av[3])
+        if op is sc.BRANCH:
+            return all(ends_anchored(a) for a in av[1])
+        if op in (sc.MAX_REPEAT, sc.MIN_REPEAT, getattr(sc, "POSSESSIVE_REPEAT", None)) and av[0] >= 1:
+            return ends_anchored(av[2])
+        if op is getattr(sc, "ATOMIC_GROUP", None):
+            return ends_anchored(av)
+        return False
     if alts is None:
-        ctx.undecided(rule, "AMP_SUFFIXES_RE is not a plain alternation")
+        ctx.ob(rule, "AMP_SUFFIXES_RE/end-anchored", ends_anchored(items),
+               "AMP_SUFFIXES_RE is not anchored at the end of the path: an 'amp' marker in the middle of a path would be deleted", site)
         return
     for i, alt in enumerate(alts):
-        alt = list(alt)
-
-        def ends_anchored(seq):
-            if not seq:
-                return False
-            op, av = seq[-1]
-            if op is sc.AT and av in (sc.AT_END, sc.AT_END_STRING):
-                return True
-            if op is sc.ASSERT and av[0] > 0:
-                return ends_anchored(list(av[1]))
-            return False
         ctx.ob(rule, "AMP_SUFFIXES_RE/alternative-%d-end-anchored" % i, ends_anchored(alt),
                "alternative %d of AMP_SUFFIXES_RE is not anchored at the end of the path: an 'amp' marker in the middle of a path would be deleted" % i, site)
 
